@@ -175,6 +175,8 @@ val fold_right : ('a2 -> 'a1 -> 'a1) -> 'a1 -> 'a2 list -> 'a1
 
 val existsb : ('a1 -> bool) -> 'a1 list -> bool
 
+val forallb : ('a1 -> bool) -> 'a1 list -> bool
+
 val filter : ('a1 -> bool) -> 'a1 list -> 'a1 list
 
 val firstn : nat -> 'a1 list -> 'a1 list
@@ -364,6 +366,8 @@ val largest_cc_size : graph -> nat result
 
 val size_answer : nat -> graph -> (q * q) result
 
+val lift : 'a1 result -> 'a1 samp
+
 val estimate_SIR_prob_size : graph -> q -> q list -> (q * q) result
 
 type pgraph = { pg_nodes : node list; pg_edges : (node * node) list;
@@ -420,6 +424,14 @@ val dpn_outer : graph -> q -> q -> bool -> node list -> pgraph -> pgraph samp
 
 val directed_percolate_network : graph -> q -> q -> bool -> pgraph samp
 
+val remove_nodes : pgraph -> node list -> pgraph
+
+val as_set : graph -> source -> node list result
+
+val infected_nodes_in : pgraph -> node list -> node list -> node list result
+
+val get_infected_nodes : graph -> q -> q -> source -> source -> node list samp
+
 val nm_perc_tab :
   (node -> node option) -> (node -> node option) -> (node -> node -> bool) ->
   graph -> pgraph result
@@ -429,3 +441,6 @@ val exec_pgraph :
 
 val exec_qq :
   (q * q) samp -> q list -> call list -> (q * q) result * call list
+
+val exec_nodes :
+  node list samp -> q list -> call list -> node list result * call list
